@@ -301,32 +301,64 @@ fn build_inner(input: &FstInput) -> Result<Vec<u8>, String> {
             fe(b.into_inner(), "into_inner")
         }
         Front::MapFromIter => {
-            let m = fe(fst::Map::from_iter(ps.iter().map(|(k, v)| (k, *v))), "from_iter")?;
+            // iterators with an exact size hint, with none at all, and with a useless one
+            let m = match ps.len() % 3 {
+                0 => fe(fst::Map::from_iter(ps.iter().map(|(k, v)| (k, *v))), "from_iter")?,
+                1 => {
+                    let mut it = ps.iter();
+                    fe(fst::Map::from_iter(std::iter::from_fn(move || it.next().map(|(k, v)| (k, *v)))), "from_iter")?
+                }
+                _ => fe(fst::Map::from_iter(ps.iter().filter(|_| true).map(|(k, v)| (k.clone(), *v))), "from_iter")?,
+            };
             Ok(m.into_fst().into_inner())
         }
         Front::SetFromIter => {
-            let s = fe(fst::Set::from_iter(ps.iter().map(|(k, _)| k)), "from_iter")?;
+            let s = match ps.len() % 3 {
+                0 => fe(fst::Set::from_iter(ps.iter().map(|(k, _)| k)), "from_iter")?,
+                1 => {
+                    let mut it = ps.iter();
+                    fe(fst::Set::from_iter(std::iter::from_fn(move || it.next().map(|(k, _)| k))), "from_iter")?
+                }
+                _ => fe(fst::Set::from_iter(ps.iter().filter(|_| true).map(|(k, _)| k.clone())), "from_iter")?,
+            };
             Ok(s.into_fst().into_inner())
         }
         Front::RawFromIterMap => {
-            let f = fe(
-                fst::raw::Fst::from_iter_map(ps.iter().map(|(k, v)| (k, *v))),
-                "from_iter_map",
-            )?;
+            let f = if ps.len() % 2 == 0 {
+                fe(fst::raw::Fst::from_iter_map(ps.iter().map(|(k, v)| (k, *v))), "from_iter_map")?
+            } else {
+                let mut it = ps.iter();
+                fe(fst::raw::Fst::from_iter_map(std::iter::from_fn(move || it.next().map(|(k, v)| (k, *v)))), "from_iter_map")?
+            };
             Ok(f.into_inner())
         }
         Front::RawFromIterSet => {
-            let f = fe(fst::raw::Fst::from_iter_set(ps.iter().map(|(k, _)| k)), "from_iter_set")?;
+            let f = if ps.len() % 2 == 0 {
+                fe(fst::raw::Fst::from_iter_set(ps.iter().map(|(k, _)| k)), "from_iter_set")?
+            } else {
+                let mut it = ps.iter();
+                fe(fst::raw::Fst::from_iter_set(std::iter::from_fn(move || it.next().map(|(k, _)| k))), "from_iter_set")?
+            };
             Ok(f.into_inner())
         }
         Front::MapExtendIter => {
             let mut b = fst::MapBuilder::memory();
-            fe(b.extend_iter(ps.iter().map(|(k, v)| (k, *v))), "extend_iter")?;
+            if ps.len() % 2 == 0 {
+                fe(b.extend_iter(ps.iter().map(|(k, v)| (k, *v))), "extend_iter")?;
+            } else {
+                let mut it = ps.iter();
+                fe(b.extend_iter(std::iter::from_fn(move || it.next().map(|(k, v)| (k, *v)))), "extend_iter")?;
+            }
             fe(b.into_inner(), "into_inner")
         }
         Front::SetExtendIter => {
             let mut b = fst::SetBuilder::memory();
-            fe(b.extend_iter(ps.iter().map(|(k, _)| k)), "extend_iter")?;
+            if ps.len() % 2 == 0 {
+                fe(b.extend_iter(ps.iter().map(|(k, _)| k)), "extend_iter")?;
+            } else {
+                let mut it = ps.iter();
+                fe(b.extend_iter(std::iter::from_fn(move || it.next().map(|(k, _)| k))), "extend_iter")?;
+            }
             fe(b.into_inner(), "into_inner")
         }
         Front::RawExtendIter => {
@@ -875,6 +907,8 @@ impl Recipe {
                 // counter prefix in base `fan` (digits 'a'..), followed by a
                 // hashed suffix over the same alphabet: bounded fan-out,
                 // bounded length, unbounded number of distinct nodes.
+                // alphabets of more than 150 symbols start at byte 1 instead of 'a'
+                let base: u8 = if fan > 150 { 1 } else { b'a' };
                 let mut digits = 1usize;
                 let mut cap = fan;
                 while cap < self.n.max(1) {
@@ -888,19 +922,19 @@ impl Recipe {
                     let mut x = i;
                     let mut tmp = [0u8; 64];
                     for d in (0..digits).rev() {
-                        tmp[d] = b'a' + (x % fan) as u8;
+                        tmp[d] = base + (x % fan) as u8;
                         x /= fan;
                     }
                     buf.extend_from_slice(&tmp[..digits]);
                     let mut h = mix(self.seed, i / if self.kind == 2 { 3 } else { 1 });
                     for _ in 0..suffix_len {
-                        buf.push(b'a' + (h % fan) as u8);
+                        buf.push(base + (h % fan) as u8);
                         h = mix(h, 1);
                     }
                     if self.kind == 3 {
                         // proper-prefix pairs: k, then k + "x" (two keys per step)
                         f(&buf, self.value(i).wrapping_mul(2));
-                        buf.push(b'a' + (h % fan) as u8);
+                        buf.push(base + (h % fan) as u8);
                         f(&buf, self.value(i).wrapping_mul(2).wrapping_add(1));
                     } else {
                         f(&buf, self.value(i));
